@@ -129,7 +129,26 @@ func (m collModel) construct() cty.Value {
 					_ = vs.Values()
 				}
 			}
-			return cty.SetValFromValueSet(vs)
+			snap := cty.SetValFromValueSet(vs)
+			// the helper set lives on after the value was taken: it is enumerated, grows, shrinks and is wrapped
+			// again; none of that is the value's business
+			_ = vs.Values()
+			for _, x := range m.extras {
+				vs.Add(x)
+			}
+			_ = vs.Values()
+			later := cty.SetValFromValueSet(vs)
+			_ = later.LengthInt()
+			for it := later.ElementIterator(); it.Next(); {
+				it.Element()
+			}
+			for i, e := range m.seq {
+				if i%2 == 0 {
+					vs.Remove(e)
+				}
+			}
+			_ = vs.Values()
+			return snap
 		}
 		if len(m.seq) == 0 {
 			return cty.SetValEmpty(m.ety)
